@@ -763,9 +763,36 @@ class Executor:
                 results.append(Outcome('normal', s_exit))
         return results
 
+    def unrolled_for(self, node, state):
+        """for x in (a, b, c): a literal tuple / list is unrolled (no invariant needed)"""
+        live = [state]
+        results = []
+        for elt in node.iter.elts:
+            nxt = []
+            for st in live:
+                v = self.ev.eval(st, elt)
+                self.assign_target(node.target, v, st, node)
+                for o in self.block(node.body, st):
+                    if o.kind in ('normal', 'continue'):
+                        nxt.append(o.state)
+                    elif o.kind == 'break':
+                        results.append(Outcome('normal', o.state))
+                    else:
+                        results.append(o)
+            live = nxt
+        for st in live:
+            if node.orelse:
+                results.extend(self.block(node.orelse, st))
+            else:
+                results.append(Outcome('normal', st))
+        return results
+
     def s_For(self, node, state):
         ctx = self.ctx
         ev = self.ev
+        if isinstance(node.iter, (ast.Tuple, ast.List)) and len(node.iter.elts) <= 16 and \
+                ctx.loop_ordinals[id(node)] not in ctx.contract.loops:
+            return self.unrolled_for(node, state)
         ord_ = ctx.loop_ordinals[id(node)]
         spec = ctx.contract.loop_spec(ord_)
         it = self.iteration_source(node, state)
